@@ -52,6 +52,7 @@ Definition obs_eqb (a b : obs) : bool :=
   | BChange w1 e1 _, BChange w2 e2 _ => Bool.eqb w1 w2 && Bool.eqb e1 e2      (* hash values are not modelled *)
   | BEq e1 _, BEq e2 _ => Bool.eqb e1 e2
   | BVolX x, BVolX y => result_eqb volx_eqb x y
+  | BOver, BOver => true
   | _, _ => false
   end.
 
@@ -73,7 +74,7 @@ Fixpoint corr_run (s : scope) (ops : list op) (model impl : list obs) : bool :=
   | [], [], [] => true
   | o :: ops', a :: model', b :: impl' =>
       (if is_ok (denote_scope s) then obs_eqb a b else obs_compat a b)
-      && corr_run (match o with OChange nc => rebuild s nc | _ => s end) ops' model' impl'
+      && corr_run (next_scope s o) ops' model' impl'
   | _, _, _ => false
   end.
 
@@ -175,6 +176,7 @@ Definition spec_obs (s : scope) (o : op) (b : obs) : bool :=
       end
   | OChange nc, BChange w e h => Bool.eqb w (changes_non_volatile s nc) && e && h
   | OEq other, BEq e h => implb e h && implb (scope_eqb s other) e
+  | OOverwrite _, BOver => true
   | _, _ => false
   end.
 
@@ -182,7 +184,7 @@ Fixpoint spec_run (s : scope) (ops : list op) (impl : list obs) : bool :=
   match ops, impl with
   | [], [] => true
   | o :: ops', b :: impl' =>
-      spec_obs s o b && spec_run (match o with OChange nc => rebuild s nc | _ => s end) ops' impl'
+      spec_obs s o b && spec_run (next_scope s o) ops' impl'
   | _, _ => false
   end.
 
